@@ -32,8 +32,28 @@ def load_known_findings():
         return json.load(f).get("findings", [])
 
 
+class StopSection(BaseException):
+    pass
+
+
+class SectionTimeout(BaseException):
+    pass
+
+
+def _alarm(seconds):
+    import signal
+
+    def handler(signum, frame):
+        raise SectionTimeout(f"section exceeded {seconds}s")
+
+    signal.signal(signal.SIGALRM, handler)
+    signal.alarm(int(seconds))
+
+
 class Recorder:
     """Collects query results inside one section (possibly in a worker process)."""
+
+    stop_on_violation = False
 
     def __init__(self, pid: str, section: str = ""):
         self.pid = pid
@@ -78,7 +98,7 @@ class Recorder:
         if v.status == "violated":
             cex = smt.model_dict(v.model, names)
             rec["cex"] = smt.jsonable(cex)
-            if replay is not None:
+            if replay is not None and not os.environ.get("SYMX_MUTANT_RUN"):
                 try:
                     ok, detail = replay(cex)
                 except Exception as e:  # replay machinery failed: harness error
@@ -94,6 +114,8 @@ class Recorder:
             except Exception:
                 pass
         self.records.append(rec)
+        if self.stop_on_violation and rec["status"] in ("violated", "inconclusive"):
+            raise StopSection()
         return v
 
     def fact(self, label, ok: bool, *, key=None, detail=None, reproduced=True):
@@ -113,6 +135,8 @@ class Recorder:
             rec["reproduced"] = reproduced
             rec["replay_detail"] = smt.jsonable(detail or {})
         self.records.append(rec)
+        if self.stop_on_violation and not ok:
+            raise StopSection()
 
     def inconclusive(self, label, why):
         self.records.append({"label": label, "section": self.section, "status": "inconclusive",
@@ -141,8 +165,14 @@ def _run_section(args):
     rec = Recorder(pid, name)
     t0 = time.time()
     try:
+        _alarm(int(os.environ.get("SYMX_SECTION_TIMEOUT", "1500")))
         mod = __import__(modname, fromlist=[fname])
         getattr(mod, fname)(rec, **kwargs)
+        import signal
+
+        signal.alarm(0)
+    except SectionTimeout as e:
+        rec.inconclusive(f"{name}: timeout", str(e))
     except BaseException as e:  # noqa: BLE001  a crashed section is a harness error, never a verdict
         rec.error(f"{name}: section crashed", f"{type(e).__name__}: {e}\n{traceback.format_exc()[-3000:]}")
     out = rec.dump()
@@ -152,8 +182,53 @@ def _run_section(args):
     return out
 
 
+def _run_mutant(args):
+    pid, name, modname, fname, kwargs, patches = args
+    rec = Recorder(pid, "mutant:" + name)
+    rec.stop_on_violation = True
+    try:
+        _alarm(int(os.environ.get("SYMX_MUTANT_TIMEOUT", "300")))
+        mod = __import__(modname, fromlist=[fname])
+        getattr(mod, fname)(rec, patches=patches, **kwargs)
+    except StopSection:
+        pass
+    except SectionTimeout as e:
+        return name, "timeout", str(e)
+    except KeyError as e:
+        return name, "stale", f"patch target not found: {e}"
+    except BaseException as e:  # noqa: BLE001
+        return name, "crashed", f"{type(e).__name__}: {e}"
+    import signal
+
+    signal.alarm(0)
+    bad = [r for r in rec.records if r["status"] == "violated" and r.get("reproduced") is not False]
+    err = [r for r in rec.records if r["status"] in ("error",)]
+    inc = [r for r in rec.records if r["status"] == "inconclusive"]
+    if bad:
+        return name, "killed", bad[0]["label"]
+    if inc:
+        return name, "killed-by-inconclusive", inc[0]["label"] + " (the check would exit 3, not 0)"
+    if err:
+        return name, "killed-by-error", err[0]["label"] + ": " + str(err[0].get("why"))[:200]
+    return name, "survived", f"{len(rec.records)} queries all hold"
+
+
+def run_mutants(pid, mutants, procs=None):
+    """mutants: list of (name, module, function, kwargs, patches).  The in-memory patched source must flip
+    at least one query of the given section.  (Replays run against the unpatched /repo, so `reproduced`
+    is expected to be False for mutants; only the solver verdict is used here.)"""
+    procs = procs or min(16, os.cpu_count() or 4)
+    jobs = [(pid, n, m, f, kw, p) for (n, m, f, kw, p) in mutants]
+    out = {}
+    ctx = mp.get_context("fork")
+    with cf.ProcessPoolExecutor(max_workers=procs, mp_context=ctx) as ex:
+        for name, status, info in ex.map(_run_mutant, jobs):
+            out[name] = {"status": status, "info": info}
+    return out
+
+
 def run_check(pid: str, tier: str, sections, *, explanation: str, bounds: dict, trusted_base, level="other",
-              procs=None, outside=None):
+              procs=None, outside=None, mutants=None):
     """sections: list of (name, module, function, kwargs).  Runs them in worker processes,
     merges, applies known findings, writes evidence, prints VIOLATION lines, returns exit code."""
     t0 = time.time()
@@ -177,10 +252,15 @@ def run_check(pid: str, tier: str, sections, *, explanation: str, bounds: dict, 
                                     "encoded": [], "assumptions": [], "samples": [], "paths": 0,
                                     "stats": {}, "name": j[1], "wall_s": 0, "extra": {}})
     results.sort(key=lambda r: [s[0] for s in sections].index(r["name"]))
-    return finish(pid, tier, seed, results, explanation, bounds, trusted_base, level, t0, outside)
+    mres = None
+    if mutants:
+        os.environ["SYMX_MUTANT_RUN"] = "1"
+        mres = run_mutants(pid, mutants, procs)
+        os.environ.pop("SYMX_MUTANT_RUN", None)
+    return finish(pid, tier, seed, results, explanation, bounds, trusted_base, level, t0, outside, mres)
 
 
-def finish(pid, tier, seed, results, explanation, bounds, trusted_base, level, t0, outside=None):
+def finish(pid, tier, seed, results, explanation, bounds, trusted_base, level, t0, outside=None, mres=None):
     known = [k for k in load_known_findings() if k.get("property") == pid]
     records = [r for res in results for r in res["records"]]
     encoded = sorted({e for res in results for e in res["encoded"]})
@@ -226,22 +306,32 @@ def finish(pid, tier, seed, results, explanation, bounds, trusted_base, level, t
         lines.append(f"KNOWN-FINDING: property={pid} {k['what']}")
 
     rdir = os.path.join(VERIF, "replays", pid)
+    by_key = {}
     for r in new_violations:
+        by_key.setdefault(r["key"], []).append(r)
+    for key, rs in by_key.items():
+        r = rs[0]
         os.makedirs(rdir, exist_ok=True)
-        h = hashlib.sha256((r["key"] + json.dumps(r.get("cex"), sort_keys=True, default=str)).encode()).hexdigest()[:12]
+        h = hashlib.sha256(key.encode()).hexdigest()[:12]
         path = os.path.join(rdir, f"{h}.json")
         with open(path, "w") as f:
             json.dump({"property": pid, "key": r["key"], "label": r["label"], "section": r["section"],
-                       "cex": r.get("cex"), "replay_detail": r.get("replay_detail"), "info": r.get("info")}, f, indent=1, default=str)
+                       "cex": r.get("cex"), "replay_detail": r.get("replay_detail"), "info": r.get("info"),
+                       "same_key_violations": len(rs), "other_labels": [x["label"] for x in rs[1:6]]}, f, indent=1, default=str)
         lines.append(f"VIOLATION property={pid} replay={path}")
-        lines.append(f"  {r['label']}: cex={json.dumps(r.get('cex'), default=str)[:400]}")
+        lines.append(f"  key={key} ({len(rs)} violated queries) first: {r['label']}: cex={json.dumps(r.get('cex'), default=str)[:300]}")
+        lines.append(f"  observed on the real code: {json.dumps(r.get('replay_detail'), default=str)[:300]}")
         exit_code = 1
     if exit_code == 0 and (errors or inconcl):
         exit_code = HARNESS_ERROR
-    for r in errors:
-        lines.append(f"HARNESS-ERROR {pid} {r['label']}: {str(r.get('why'))[:2000]}")
-    for r in inconcl:
+    for r in errors[:12]:
+        lines.append(f"HARNESS-ERROR {pid} {r['label']}: {str(r.get('why'))[:1500]}")
+    if len(errors) > 12:
+        lines.append(f"HARNESS-ERROR {pid} ... and {len(errors) - 12} more")
+    for r in inconcl[:12]:
         lines.append(f"INCONCLUSIVE {pid} {r['label']}: {r['status']} {r.get('why', '')}")
+    if len(inconcl) > 12:
+        lines.append(f"INCONCLUSIVE {pid} ... and {len(inconcl) - 12} more")
 
     nontrivial_labels = {r["label"] for r in records if r.get("nontrivial") and r.get("twin", "sat") != "unsat"}
     wall = time.time() - t0
@@ -276,6 +366,8 @@ def finish(pid, tier, seed, results, explanation, bounds, trusted_base, level, t
                           **({"extra": res["extra"]} if res.get("extra") else {})} for res in results],
             "exhaustive": False,
             "known_findings_reported": sorted(seen_known),
+            **({"mutants": mres, "mutants_killed": sum(1 for v in mres.values() if v["status"].startswith("killed")),
+                "mutants_total": len(mres)} if mres is not None else {}),
         },
         "assumptions": assumptions,
         "wall_s": round(wall, 2),
@@ -286,6 +378,11 @@ def finish(pid, tier, seed, results, explanation, bounds, trusted_base, level, t
         json.dump(evidence, f, indent=1, default=str)
     for ln in lines:
         print(ln)
+    if mres is not None:
+        for k, v in mres.items():
+            if not v["status"].startswith("killed"):
+                print(f"MUTANT-{v['status'].upper()} {pid} {k}: {v['info']}")
+        print(f"[{pid}] self-test mutants killed {sum(1 for v in mres.values() if v['status'].startswith('killed'))}/{len(mres)}")
     print(f"[{pid}] tier={tier} queries={n_obl} holds={len(holds)} known={len(known_hits)} new={len(new_violations)} "
           f"inconclusive={len(inconcl)} errors={len(errors)} paths={int(stats.get('paths', 0))} "
           f"solver_s={stats.get('solver_s', 0.0):.1f} wall={wall:.1f}s exit={exit_code}")
